@@ -115,7 +115,9 @@ def rt_path_event(i, rparts, via_specs, rng, probes):
     else:
         obj = dp.DataPath(*[gen.build_part(p) for p in rparts])
     # the two public serialisers of a path (to_json_like is documented as the same part specs)
-    out, js = outcome_of((lambda: obj.to_json_like()) if i % 3 == 0 else (lambda: obj.to_part_specs()))
+    import zlib
+    via_jl = zlib.crc32(repr(e["rparts"]).encode()) % 3 == 0      # (by recipe, so that a replay takes the same route)
+    out, js = outcome_of((lambda: obj.to_json_like()) if via_jl else (lambda: obj.to_part_specs()))
     e["outcome"] = out
     if out != "ok":
         e["exc"] = out
@@ -169,6 +171,13 @@ def rt_rule_event(i, rr):
     e = blank(i, "rt_rule")
     e["rule"] = ruledrv.enc_rule_recipe(rr)
     obj = ruledrv.build_rule(rr)
+    klass = valida.Rule
+    import zlib
+    if zlib.crc32(repr(e["rule"]).encode()) % 5 == 0:      # (by recipe, so that a replay takes the same route)
+        # a user's subclass of Rule that adds nothing is a rule all the same: it serialises as one, and its own
+        # from_json_like gives back an equal object of that class
+        klass = type("ProjectRule", (valida.Rule,), {})
+        obj = klass(path=obj.path, condition=obj.condition, cast=obj.cast)
     out, js = outcome_of(lambda: obj.to_json_like())
     e["outcome"] = out
     if out != "ok":
@@ -181,7 +190,7 @@ def rt_rule_event(i, rr):
     e["json_ok"], back = json_roundtrip(js)
     if not e["json_ok"]:
         return e
-    out2, rb = outcome_of(lambda: valida.Rule.from_json_like(back))
+    out2, rb = outcome_of(lambda: klass.from_json_like(back))
     e["outcome_rb"] = out2
     if rb is None:
         return e
